@@ -28,6 +28,9 @@ LenAgrees(f) == (Len(f) = 14) <=> (DFof(f) < 16)
 (******************************* CRC-24 ***********************************)
 \* generator x^24 + x^23 + ... = 0x1FFF409; G24 is its low 24 bits
 G24 == 16774153
+\* The generator has degree 24 and constant term 1, so x does not divide it: an error burst x^k * b(x) with deg b < 24,
+\* b # 0, is never a multiple of the generator - every burst of up to 24 bits is detected (Thm.tla enumerates up to 14).
+ASSUME G24 % 2 = 1 /\ G24 < 16777216
 P24 == 16777216
 FeedBit(r, b) == LET s == 2 * r + b IN IF s >= P24 THEN XorI(s - P24, G24) ELSE s
 \* (k * x^24) mod G for a nibble k: feed four zero bits after the nibble
